@@ -23,10 +23,10 @@ import (
 // quantifier of the property is over request schedules, and the unmonitored
 // outcome of a preset is computed once per process and cached.
 var c40Presets = []c40Case{
-	{Seed: 1, Accesses: 900, MaxAddrLog: 12, CacheKB: 1, Ways: 2, MSHR: 2, DRAMLat: 20},
-	{Seed: 2, Accesses: 700, MaxAddrLog: 14, CacheKB: 4, Ways: 4, MSHR: 4, DRAMLat: 100},
-	{Seed: 3, Accesses: 1200, MaxAddrLog: 10, CacheKB: 1, Ways: 1, MSHR: 1, DRAMLat: 5},
-	{Seed: 4, Accesses: 800, MaxAddrLog: 16, CacheKB: 2, Ways: 2, MSHR: 8, DRAMLat: 50},
+	{Seed: 1, Accesses: 500, MaxAddrLog: 12, CacheKB: 1, Ways: 2, MSHR: 2, DRAMLat: 20},
+	{Seed: 2, Accesses: 400, MaxAddrLog: 14, CacheKB: 4, Ways: 4, MSHR: 4, DRAMLat: 100},
+	{Seed: 3, Accesses: 650, MaxAddrLog: 10, CacheKB: 1, Ways: 1, MSHR: 1, DRAMLat: 5},
+	{Seed: 4, Accesses: 450, MaxAddrLog: 16, CacheKB: 2, Ways: 2, MSHR: 8, DRAMLat: 50},
 }
 
 func c40SimKey(c c40Case) string {
@@ -370,7 +370,7 @@ func firstRepoFrame(stack string) string {
 
 // ---- the check --------------------------------------------------------------------------------------
 
-const c40Rule = "each case runs in a child process of the -race test binary: a memory hierarchy (seeded access agent -> write-back cache -> ideal memory controller, 700–1200 reads and writes, " +
+const c40Rule = "each case runs in a child process of the -race test binary: a memory hierarchy (seeded access agent -> write-back cache -> ideal memory controller, 400–650 reads and as many writes, " +
 	"one of 4 presets) built by simulation.MakeBuilder() with the monitor on (free port taken from the monitor's own announcement), engine.Run() on one goroutine while a client goroutine issues 30–70 " +
 	"drawn requests over loopback HTTP to the real routes /api/pause, /api/continue, /api/engine/state, /api/now, /api/tick/<comp>, /api/list_components, /api/component/<comp>, " +
 	"/api/field/<json> (existing and missing fields, with and without slice paging), /api/hangdetector/buffers (sort/limit/offset), /api/progress, /api/mode, /api/trace/is_tracing with drawn gaps " +
